@@ -10,7 +10,7 @@ REQUIRED_BRANCHES = [
     "hyp-hold", "hyp-den-zero", "hyp-f-ge-1",         # statistics inside the hypotheses, the b=1,dl=0 corner, f = 0
     "law-freq-strict", "law-len-strict", "law-df-idf-strict", "law-boost-exact",
     "composite-noboost", "composite-boost",
-    "hit-scored", "hit-multi-term", "hit-boosted-compound", "hit-constant-only", "stats-as-corpus",
+    "hit-scored", "hit-multi-term", "hit-boosted-compound", "hit-constant-only", "stats-as-corpus", "matchset-nonempty",
     "op:lit", "op:const", "op:norm", "op:constant",
 ]
 
